@@ -9,14 +9,15 @@ from session import Session, ServerDied
 def main():
     path = sys.argv[1]
     db = int(sys.argv[2]) if len(sys.argv) > 2 else 0
-    odb = int(sys.argv[3]) if len(sys.argv) > 3 else None
+    odb = int(sys.argv[3]) if len(sys.argv) > 3 and sys.argv[3] != '-' else None
+    ttl = sys.argv[4] if len(sys.argv) > 4 else None
     runner.build_harness()
     ctx = runner.Ctx('FORMS-' + path, 'quick', 1)
     srv = ctx.new_server()
     tr = ctx.new_trace('forms')
     s = Session(srv, tr)
     try:
-        n = formspaths.run_forms(s, path, db, odb)
+        n = formspaths.run_forms(s, path, db, odb, ttl=ttl)
     except ServerDied:
         tr.emit({'k': 'crash', 'status': srv.exit_status()})
     s.close_all()
